@@ -11,7 +11,8 @@ are related to the model's by `C08Gen.frameOfGen`).
 Every theorem is stated for ALL argument values; where the generated function tracks a panic site of the Rust code
 that the hand model does not have (an `assert!`, `usize` overflow, an index, a slice bound, a `heapless::Vec`
 capacity, `count_bits` underflow) the hypothesis excludes exactly that point and a lemma (`fixed_lpc_panics_wide`,
-`encode_subframe_panics_empty`, `estimated_qlpc_capacity`) / a comment documents it.  `*_valid` and the frame-level theorems
+`encode_subframe_panics_empty`) / a comment documents it.  (The capacity 24 of the LPC warm-up vector is a panic site of the
+hand model too — `maxLpcOrder`, `maxLpcOrder_gen`, `estimated_qlpc_capacity` — so `estimated_qlpc` needs no hypothesis.)  `*_valid` and the frame-level theorems
 discharge these hypotheses on the input domain of C09 / C01Strict / C07Total.
 -/
 import FlacVerif.Gen.Coding
@@ -362,19 +363,21 @@ theorem vecResize_length {α : Type} (v : List α) (n : Nat) (x : α) : (vecResi
   simp only [List.length_append, List.length_take, List.length_replicate]
   omega
 
-/-- **`estimated_qlpc`** = `lpcCandidate`.  `hq` excludes the capacity of the warm-up vector (`expect("LPC order exceeded the
-maximum")`, `qlpc::MAX_ORDER = 24`), a panic site the hand model does not have: the oracle's parameter set has
-`config.qlpc.lpc_order` coefficients, at most 24 in a verified configuration (note that `OEvent.Ok` only says `≤ 32`, the
-number of lanes).  The slice bound `signal[0..order]` needs no hypothesis: a successful parameter search implies it. -/
-theorem C09G_estimated_qlpc (stale : List Int) (c : Gen.SubFrameCoding) (xs : List Int) (bps : Nat) (log : List OEvent)
-    (hq : ∀ cs s p, log.head? = some (.qlpc cs s p) → cs.length ≤ 24) :
+/-- The model's capacity of the LPC warm-up vector is the constant generated from constant.rs (`qlpc::MAX_ORDER`): a
+changed constant breaks this proof. -/
+theorem maxLpcOrder_gen : maxLpcOrder = Gen.Const.qlpc_MAX_ORDER := rfl
+
+/-- **`estimated_qlpc`** = `lpcCandidate`, for ALL arguments: no hypothesis is left.  The capacity of the warm-up vector
+(`expect("LPC order exceeded the maximum")`, `qlpc::MAX_ORDER = 24`) is a panic site of the hand model as well
+(`maxLpcOrder`, `maxLpcOrder_gen`), at the same point — after `encode_residual` has returned; `estimated_qlpc_capacity`
+shows it.  The slice bound `signal[0..order]` needs no hypothesis: a successful parameter search implies it. -/
+theorem C09G_estimated_qlpc (stale : List Int) (c : Gen.SubFrameCoding) (xs : List Int) (bps : Nat) (log : List OEvent) :
     estimated_qlpc stale c xs bps log = lpcCandidate (subCfgOf c) xs bps log := by
   unfold estimated_qlpc lpcCandidate
-  match log, hq with
-  | [], _ => rfl
-  | .est _ _ :: _, _ => rfl
-  | .qlpc cs sh pr :: l, hq =>
-    have h24 := hq cs sh pr rfl
+  match log with
+  | [] => rfl
+  | .est _ _ :: _ => rfl
+  | .qlpc cs sh pr :: l =>
     simp only [bindM_apply, oracleQlpc, Option.bind_some, req_apply, vecResize_length, Nat.le_refl, decide_true, if_true,
       liftO_apply]
     cases hce : computeError cs sh.toNat xs with
@@ -395,8 +398,11 @@ theorem C09G_estimated_qlpc (stale : List Int) (c : Gen.SubFrameCoding) (xs : Li
             simp only [Option.bind_eq_bind, Option.bind_eq_some_iff] at her
             obtain ⟨prc, hs, _⟩ := her
             rw [← hel]; exact Nat.le_trans (Nat.le_max_right _ _) (search_some_le _ _ _ _ hs)
-          have hcap : Gen.Const.qlpc_MAX_ORDER = 24 := by decide
-          simp [optTry, pureM_apply, req_apply, hle, hcap, h24, List.length_take, Nat.min_eq_left hle]
+          by_cases h24 : cs.length ≤ maxLpcOrder
+          · have h24' : cs.length ≤ Gen.Const.qlpc_MAX_ORDER := maxLpcOrder_gen ▸ h24
+            simp [optTry, pureM_apply, req_apply, hle, h24, h24', List.length_take, Nat.min_eq_left hle]
+          · have h24' : ¬ cs.length ≤ Gen.Const.qlpc_MAX_ORDER := maxLpcOrder_gen ▸ h24
+            simp [optTry, pureM_apply, req_apply, hle, h24, h24', List.length_take, Nat.min_eq_left hle]
 
 /-! ### `encode_subframe` -/
 
@@ -433,7 +439,6 @@ all arguments outside the panic sites the hand model does not have:
 * `hvb`  `usize` overflow of `Verbatim::count_bits_from_metadata`;
 * `hb`   the `assert!(bits_per_sample < 30)` of `fixed_lpc`;
 * `hmo`  `max_order + 1`; `hov` the keys of the order selection (`SelectFits`);
-* `hq`   the capacity 24 of the LPC warm-up vector;
 * `hcf`, `hcl`  `count_bits()` of a candidate must not underflow (the model's `keepBelow` drops such a candidate). -/
 theorem C09G_encode_subframe (s1 : List (List Int)) (s2 : List Int) (c : Gen.SubFrameCoding) (xs : List Int) (bps : Nat)
     (log : List OEvent)
@@ -442,7 +447,6 @@ theorem C09G_encode_subframe (s1 : List (List Int)) (s2 : List Int) (c : Gen.Sub
     (hb : c.use_fixed = true → 64 ≤ xs.length → bps < 30)
     (hmo : c.fixed.max_order + 1 < 2 ^ 64)
     (hov : SelectFits c xs bps log)
-    (hq : ∀ cs s p, OEvent.qlpc cs s p ∈ log → cs.length ≤ 24)
     (hcf : ∀ b l s l', fixedCandidate (subCfgOf c) xs bps b l = some (some s, l') → s.count ≠ none)
     (hcl : ∀ l s l', lpcCandidate (subCfgOf c) xs bps l = some (some s, l') → s.count ≠ none) :
     encode_subframe s1 s2 c xs bps log = encodeSubframe (subCfgOf c) xs bps log := by
@@ -499,7 +503,6 @@ theorem C09G_encode_subframe (s1 : List (List Int)) (s2 : List Int) (c : Gen.Sub
     | none => rfl
     | some r =>
       obtain ⟨fixed, l1⟩ := r
-      have hsub := (fixedStage_shape _ _ _ _ _ _ _ hfs).1
       have hfc : ∀ s, fixed = some s → s.count ≠ none := by
         intro s hs
         unfold fixedStage at hfs
@@ -527,7 +530,7 @@ theorem C09G_encode_subframe (s1 : List (List Int)) (s2 : List Int) (c : Gen.Sub
             simp only [subCfgOf, Bool.and_eq_true, Bool.not_eq_true', hcond.2, and_true]
             simpa using hcond.1
           rw [if_pos hcond, if_pos hcond']
-          rw [bindM_apply, C09G_estimated_qlpc s2 c xs bps l1 (fun cs s p hh => hq cs s p (hsub _ (List.mem_of_mem_head? hh)))]
+          rw [bindM_apply, C09G_estimated_qlpc s2 c xs bps l1]
           cases hlc : lpcCandidate (subCfgOf c) xs bps l1 with
           | none => rfl
           | some r =>
@@ -590,8 +593,12 @@ theorem lpcCandidate_count (cfg : SubCfg) (xs : List Int) (bps : Nat) (l l' : Li
     cases fits with
     | false => simp at h
     | true =>
-      simp only [if_true, Option.map_eq_some_iff, Prod.mk.injEq, Option.some.injEq] at h
-      obtain ⟨res, hres, rfl, _⟩ := h
+      simp only [if_true, Option.bind_eq_some_iff] at h
+      obtain ⟨res, hres, h⟩ := h
+      split at h
+      case isFalse => cases h
+      simp only [Option.some.injEq, Prod.mk.injEq] at h
+      obtain ⟨rfl, _⟩ := h
       unfold encodeResidual at hres
       simp only [Option.bind_eq_bind, Option.bind_eq_some_iff, Option.some.injEq] at hres
       obtain ⟨prc, hs, rfl⟩ := hres
@@ -602,14 +609,13 @@ theorem lpcCandidate_count (cfg : SubCfg) (xs : List Int) (bps : Nat) (l l' : Li
   · cases h
 
 /-- **`encode_subframe` = `encodeSubframe` on valid inputs**: a block of `1 ≤ n < 2^16` samples of `1 ≤ bps ≤ 25` bits, a
-Rice parameter limit `≤ 14`, an oracle whose parameter sets have at most 24 coefficients and whose entropy estimates are
-below `2^63` — the domain of C09 / C01Strict / C07Total. -/
+Rice parameter limit `≤ 14`, an oracle whose entropy estimates are below `2^63` — the domain of C09 / C01Strict / C07Total
+(nothing is asked of the parameter sets: beyond 24 coefficients both sides panic). -/
 theorem C09G_encode_subframe_valid (s1 : List (List Int)) (s2 : List Int) (c : Gen.SubFrameCoding) (xs : List Int)
     (bps : Nat) (log : List OEvent)
     (hn : 1 ≤ xs.length) (hlen : xs.length < 2 ^ 16) (hb : 1 ≤ bps ∧ bps ≤ 25)
     (hx : ∀ x ∈ xs, SubFrame.inRange bps x = true) (hmax : c.prc.max_parameter ≤ 14)
     (hmo : c.fixed.max_order + 1 < 2 ^ 64)
-    (hq : ∀ cs s p, OEvent.qlpc cs s p ∈ log → cs.length ≤ 24)
     (hest : ∀ o b, OEvent.est o b ∈ log → b < 2 ^ 63) :
     encode_subframe s1 s2 c xs bps log = encodeSubframe (subCfgOf c) xs bps log := by
   apply C09G_encode_subframe s1 s2 c xs bps log
@@ -631,7 +637,6 @@ theorem C09G_encode_subframe_valid (s1 : List (List Int)) (s2 : List Int) (c : G
       have := hest o b (List.mem_of_getElem? hl)
       have : bps * i ≤ 25 * 4 := Nat.mul_le_mul hb.2 (by omega)
       omega
-  · exact hq
   · intro b l s l' h
     exact fixedCandidate_count _ xs bps b l l' s hlen hb hx hmax h
   · intro l s l' h
@@ -668,25 +673,19 @@ example : fixed_lpc [] cfgDefault sig64 16 1032 log64 = fixedCandidate (subCfgOf
 
 example : estimated_qlpc [7, 7, 7] cfgDefault sig64 16 (log64.drop 5) =
     lpcCandidate (subCfgOf cfgDefault) sig64 16 (log64.drop 5) :=
-  C09G_estimated_qlpc _ cfgDefault sig64 16 _ (by
-    intro cs s p h
-    simp [log64] at h
-    obtain ⟨rfl, _, _⟩ := h
-    decide)
+  C09G_estimated_qlpc _ cfgDefault sig64 16 _
 
 theorem sig64_valid : (1 ≤ sig64.length ∧ sig64.length < 2 ^ 16) ∧ ∀ x ∈ sig64, SubFrame.inRange 16 x = true := by decide
 
 example : encode_subframe [] [1, 2, 3] cfgDefault sig64 16 log64 = encodeSubframe (subCfgOf cfgDefault) sig64 16 log64 :=
   C09G_encode_subframe_valid _ _ cfgDefault sig64 16 log64 sig64_valid.1.1 sig64_valid.1.2 (by decide) sig64_valid.2
     (by decide) (by decide)
-    (by intro cs s p h; simp [log64] at h; obtain ⟨rfl, _, _⟩ := h; decide)
     (by intro o b h; simp [log64] at h; omega)
 
 example : encode_subframe [] [] cfgBitCount sig64 16 (log64.drop 5) =
     encodeSubframe (subCfgOf cfgBitCount) sig64 16 (log64.drop 5) :=
   C09G_encode_subframe_valid _ _ cfgBitCount sig64 16 _ sig64_valid.1.1 sig64_valid.1.2 (by decide) sig64_valid.2
     (by decide) (by decide)
-    (by intro cs s p h; simp [log64] at h; obtain ⟨rfl, _, _⟩ := h; decide)
     (by intro o b h; simp [log64] at h)
 
 /-- Excluded point `hne`: `is_constant` of an empty slice is `true`, then `samples[0]` panics; the hand model returns a
@@ -702,24 +701,29 @@ theorem encode_subframe_panics_empty (s1 : List (List Int)) (s2 : List Int) (c :
     have : (subCfgOf c).useConstant = true := h
     simp [this, isConstant]
 
-/-- Excluded point `hq`: a parameter set of more than 24 coefficients panics at `expect("LPC order exceeded the maximum")`
-as soon as its residual is encodable; the hand model has no such site (`OEvent.Ok` allows up to 32). -/
+/-- The capacity of the LPC warm-up vector, a panic site of BOTH sides: a parameter set of more than 24 coefficients whose
+error signal `compute_error` accepts panics — in `encode_residual`, or else at `expect("LPC order exceeded the maximum")` —
+in the generated code and in the hand model (`maxLpcOrder`).  `OEvent.Ok` (at most 24 coefficients) excludes it. -/
 theorem estimated_qlpc_capacity (stale : List Int) (c : Gen.SubFrameCoding) (xs : List Int) (bps : Nat) (l : List OEvent)
-    (cs : List Int) (sh : Int) (pr : Nat) (errors : List Int) (res : Residual) (h25 : 24 < cs.length)
-    (hce : computeError cs sh.toNat xs = some (errors, true))
-    (her : encodeResidual c.prc.max_parameter errors cs.length = some res) :
-    estimated_qlpc stale c xs bps (.qlpc cs sh pr :: l) = none := by
-  unfold estimated_qlpc
-  have hcap : Gen.Const.qlpc_MAX_ORDER = 24 := by decide
-  have hel := (computeError_fits cs sh.toNat xs errors hce).1
-  have hle : cs.length ≤ xs.length := by
-    unfold encodeResidual at her
-    simp only [Option.bind_eq_bind, Option.bind_eq_some_iff] at her
-    obtain ⟨prc, hs, _⟩ := her
-    rw [← hel]; exact Nat.le_trans (Nat.le_max_right _ _) (search_some_le _ _ _ _ hs)
-  have h1 : ¬ cs.length ≤ 24 := by omega
-  simp [bindM_apply, oracleQlpc, req_apply, vecResize_length, liftO_apply, hce, boolThenM, C09G_encode_residual, her,
-    optTry, hcap, hle, h1, List.length_take, Nat.min_eq_left hle, pureM_apply]
+    (cs : List Int) (sh : Int) (pr : Nat) (errors : List Int) (h25 : 24 < cs.length)
+    (hce : computeError cs sh.toNat xs = some (errors, true)) :
+    estimated_qlpc stale c xs bps (.qlpc cs sh pr :: l) = none ∧
+      lpcCandidate (subCfgOf c) xs bps (.qlpc cs sh pr :: l) = none := by
+  have hm : lpcCandidate (subCfgOf c) xs bps (.qlpc cs sh pr :: l) = none := by
+    have h1 : ¬ cs.length ≤ maxLpcOrder := by unfold maxLpcOrder; omega
+    simp [lpcCandidate, hce, h1]
+  exact ⟨(C09G_estimated_qlpc stale c xs bps _).trans hm, hm⟩
+
+/-- … and without an encodable residual (`compute_error` reports a value outside the FLAC range) the same parameter set is
+dropped before that site is reached, on both sides. -/
+theorem estimated_qlpc_dropped (stale : List Int) (c : Gen.SubFrameCoding) (xs : List Int) (bps : Nat) (l : List OEvent)
+    (cs : List Int) (sh : Int) (pr : Nat) (errors : List Int)
+    (hce : computeError cs sh.toNat xs = some (errors, false)) :
+    estimated_qlpc stale c xs bps (.qlpc cs sh pr :: l) = some (none, l) ∧
+      lpcCandidate (subCfgOf c) xs bps (.qlpc cs sh pr :: l) = some (none, l) := by
+  have hm : lpcCandidate (subCfgOf c) xs bps (.qlpc cs sh pr :: l) = some (none, l) := by
+    simp [lpcCandidate, hce]
+  exact ⟨(C09G_estimated_qlpc stale c xs bps _).trans hm, hm⟩
 
 /-! ### frame level: `encode_frame_impl` -/
 
@@ -753,13 +757,14 @@ theorem channel_slice_eq (fb : FrameBuf) (n ch : Nat) (h : FbOk fb n) (hch : ch 
   have hc : ch * fb.size + fb.filled_size ≤ fb.samples.length := by omega
   simp [FrameBuf.channel_slice, req_apply, pureM_apply, ha, hb, hc, chanOf]
 
-/-- the oracle log as far as the integer pipeline constrains it: parameter sets of at most 24 coefficients (the capacity
-of the LPC warm-up vector), entropy estimates below `2^63` (the `usize` sum of the selection key) -/
+/-- the oracle log as far as the generated code constrains it beyond the hand model: entropy estimates below `2^63` (the
+`usize` sum of the selection key).  (Parameter sets of more than 24 coefficients — the capacity of the LPC warm-up vector —
+need not be excluded: the hand model panics there as well.) -/
 def LogFits (log : List OEvent) : Prop :=
-  (∀ cs s p, OEvent.qlpc cs s p ∈ log → cs.length ≤ 24) ∧ (∀ o b, OEvent.est o b ∈ log → b < 2 ^ 63)
+  ∀ o b, OEvent.est o b ∈ log → b < 2 ^ 63
 
 theorem LogFits.sub {l l' : List OEvent} (h : LogFits l) (hs : ∀ e ∈ l', e ∈ l) : LogFits l' :=
-  ⟨fun cs s p hm => h.1 cs s p (hs _ hm), fun o b hm => h.2 o b (hs _ hm)⟩
+  fun o b hm => h o b (hs _ hm)
 
 theorem add_subframe_apply (frame : Gen.Writer.Frame) (sf : SubFrame) (log : List OEvent)
     (h : frame.subframes.length + 1 ≤ 8) :
@@ -802,7 +807,7 @@ theorem forMS_channels (s1 : List (List Int)) (s2 : List Int) (c : Gen.Encoder) 
     simp only [List.range'_succ, List.map_cons, forMS, encodeChannels, bindM_apply, channel_slice_eq fb N s hfb (by omega),
       Option.bind_some, hoff, req_apply, h1, decide_true, if_true, h2]
     rw [C09G_encode_subframe_valid s1 s2 c.subframe_coding (chanOf fb s) _ log (by omega) (by omega) ⟨hb1, hb25⟩ hx hmax hmo
-      hlog.1 hlog.2]
+      hlog]
     cases hes : encodeSubframe (subCfgOf c.subframe_coding) (chanOf fb s) (bps + (C02Hdr.caOfGen asg).bpsOffset s) log with
     | none => rfl
     | some r =>
@@ -1231,14 +1236,9 @@ def cfgEnc : Gen.Encoder := Gen.Encoder.default true
 def log4 : List OEvent := log64 ++ log64 ++ log64 ++ log64
 
 theorem log4_fits : LogFits log4 := by
-  constructor
-  · intro cs s p h
-    simp [log4, log64] at h
-    obtain ⟨rfl, _, _⟩ := h
-    decide
-  · intro o b h
-    simp [log4, log64] at h
-    omega
+  intro o b h
+  simp [log4, log64] at h
+  omega
 
 theorem msStale_ok : StereoBuf msStale := by
   unfold StereoBuf msStale
